@@ -437,6 +437,13 @@ class Parser:
             return True
 
         if ttype == "semicolon":
+            # a test or a command expecting a block cannot be ended that way
+            condition = (
+                self.__curcommand.get_type() == "test"
+                or self.__curcommand.accept_children
+            )
+            if condition:
+                return False
             self.__cstate = None
             if not self.__check_command_completion(testsemicolon=False):
                 return False
